@@ -101,4 +101,19 @@ def run (L : Layout) (m : Mem) : List Req → Mem × List Resp
   | [] => (m, [])
   | r :: rs => let x := step L m r; let y := run L x.1 rs; (y.1, x.2 :: y.2)
 
+/-- the application puts the unit back to its defaults (`ModbusSlaveContext.reset()`): every populated cell of every
+    block that a table lives in goes back to 0; which cells are populated does not change; other blocks are untouched -/
+def Mem.reset (L : Layout) (m : Mem) : Mem := fun k a =>
+  if k = L.tbl .d ∨ k = L.tbl .c ∨ k = L.tbl .i ∨ k = L.tbl .h then (m k a).map (fun _ => 0) else m k a
+
+/-- a step of a unit's history: a request arrives, or the application resets the unit -/
+inductive HOp where
+  | req (r : Req)
+  | reset
+
+def runH (L : Layout) (m : Mem) : List HOp → Mem × List Resp
+  | [] => (m, [])
+  | .req r :: rs => let x := step L m r; let y := runH L x.1 rs; (y.1, x.2 :: y.2)
+  | .reset :: rs => runH L (m.reset L) rs
+
 end Pymodbus.RegisterFile
